@@ -40,7 +40,10 @@ ProbeValues(s) ==
     ELSE IF s[3] = "projection" THEN {[auto |-> TRUE], [auto |-> FALSE]}
     ELSE {[none |-> TRUE]}
 
-ProbeSlots == {s \in Slots : ~(s[2] = "symbol" /\ s[4] = "symbol" /\ s[3] = "block")}
+\* shapes the builder knows how to write; a schema construct the extractor cannot classify ("any", "array?") is
+\* reported by the harness, not probed
+KnownShapes == ScalarShapes \cup ListShapes \cup {"repeated", "kv", "config", "projection", "points", "pointslist", "block", "blocklist"}
+ProbeSlots == {s \in Slots : s[3] \in KnownShapes /\ ~(s[2] = "symbol" /\ s[4] = "symbol" /\ s[3] = "block")}
 
 PlanFor(s, v, p) ==
     LET ns == SimpleNeutral(s[1], s[2])
